@@ -174,7 +174,7 @@ def configs(tier):
         kw.setdefault("seg", L)
         out.append(kw)
 
-    for mode, closure, size, shape in itertools.product(("ack", "unack"), (False, True), (0, 1, L + 1, 2 * L + 1), ("new", "existing", "dir")):
+    for mode, closure, size, shape in itertools.product(("ack", "unack"), (False, True), (0, 1, L + 1, 2 * L + 1), ("new", "existing", "dir", "dir_existing")):
         if tier == "quick" and shape != "new" and size not in (L + 1,):
             continue
         add(mode=mode, closure=closure, size=size, shape=shape, link="ff")
